@@ -52,6 +52,21 @@ def gen_doc(rng, depth=0, maxdepth=4, nulls=True, long_arrays=False, keys=PTR_KE
     return o
 
 
+def sprinkle_flags(rng, t, p=0.25):
+    """constant keys and reference members: ownership flags must never change what a document means"""
+    for n in all_nodes(t):
+        if n.parent is None:
+            continue
+        if n.key is not None and n.parent.kind == 'o' and rng.random() < p:
+            n.kconst = True
+        # only scalars by reference: utilities sort objects in place, and reordering a container
+        # through a reference leaves its owner with a stale first-child pointer (user error class,
+        # DESIGN.md section 5.7)
+        if n.kind in 'ztfns' and rng.random() < p * 0.6:
+            n.ref = True
+    return t
+
+
 def all_nodes(t):
     out = []
     st = [t]
@@ -390,7 +405,12 @@ def case_c16(rng, cid):
         claim = not run.bad_syntax
     except rfc.Undefined:
         ok, res, run, claim = None, None, None, False
-    ops = ['build 1 ' + to_tn(doc0), 'build 2 ' + to_tn(patch), 'chk 2', 'patch 1 2 1', 'chk 1', 'tn 1', 'chk 2', 'print 1 0', 'del 1', 'del 2']
+    ptn = to_tn(patch)
+    if rng.random() < 0.3:
+        fp = patch.clone()
+        rfc.set_parent(fp)
+        ptn = to_tn(sprinkle_flags(rng, fp))
+    ops = ['build 1 ' + to_tn(doc0), 'build 2 ' + ptn, 'chk 2', 'patch 1 2 1', 'chk 1', 'tn 1', 'chk 2', 'print 1 0', 'del 1', 'del 2']
     return (cid, 'default' if cid % 2 else 'custom', ops), (doc0, patch, ok, res, claim, cls, run)
 
 
@@ -681,6 +701,9 @@ def case_c18(rng, cid):
         tm = target.clone()
         rfc.set_parent(tm)
         res = rfc.merge_patch(tm, patch)
+        if rng.random() < 0.5:
+            rfc.set_parent(patch)
+            sprinkle_flags(rng, patch)
         ops = ['build 1 ' + to_tn(target), 'build 2 ' + to_tn(patch), 'chk 2', 'merge 3 1 2 1', 'chk 3', 'tn 3', 'chk 2', 'print 3 0', 'del 3', 'del 2']
         return (cid, 'default' if cid % 4 else 'custom', ops), ('apply', target, patch, res)
     frm = gen_doc(rng, maxdepth=rng.choice([1, 2, 3, 4]), nulls=False)
